@@ -153,7 +153,7 @@ def build(rng: Random, *, max_len: int = 120, base: str | None = None, ops: tupl
     lines = src
     chosen = ops if ops is not None else tuple(
         op for op in ("delete", "duplicate", "reorder", "splice", "mutate") if rng.random() < 0.55
-    ) + (("zone-update",) if rng.random() < 0.35 else ())
+    ) + (("conflict",) if rng.random() < 0.3 else ()) + (("zone-update",) if rng.random() < 0.35 else ())
     for op in chosen:
         if op == "zone-update":
             continue  # appended after the other operations (below)
@@ -192,6 +192,19 @@ def build(rng: Random, *, max_len: int = 120, base: str | None = None, ops: tupl
                     pick = a if (a and (not b or rng.random() < len(a) / (len(a) + len(b)))) else b
                     out.append(pick.pop(0))
                 lines = out
+        elif op == "conflict":
+            # a device re-bound elsewhere / a second claim: the same packet again under another zone index
+            out = []
+            n_conf = 0
+            for dtm, frame in lines:
+                out.append((dtm, frame))
+                p = split(frame)
+                if p and p["code"] in ("000C", "3150", "2309", "12B0", "000A", "0004") and len(p["payload"]) >= 4 and p["payload"][:1] == "0" and rng.random() < 0.25:
+                    idx = rng.choice([f"{i:02X}" for i in range(16) if f"{i:02X}" != p["payload"][:2]][: rng.choice((4, 12, 15))])
+                    out.append((dtm, join(dict(p, payload=idx + p["payload"][2:]))))
+                    n_conf += 1
+            lines = out
+            meta["conflicts"] = n_conf
         elif op == "mutate":
             out = []
             n_mut = 0
